@@ -43,6 +43,7 @@ func genConfig(r *vk.RNG, a *app.App, sid string) app.Config {
 func genConfigDiff(r *vk.RNG, a *app.App, sid string) app.Config {
 	cfg := genConfig(r, a, sid)
 	cfg.ResetOnEmptyInput = r.Chance(1, 5)
+	cfg.PersisterContent = r.Chance(1, 4)
 	return cfg
 }
 
